@@ -40,7 +40,7 @@ class Sound(Checker):
 def unit(u) -> Stats:
     n, tag, v, modes, tol = u
     st = Stats()
-    for comp in COMPUTERS:
+    for comp in (COMPUTERS if "cached-only" not in modes else COMPUTERS[1:]):
         chk = Sound(v, tol)
         lr = LatticeRun(n, v, comp, chk, st, tag)
         if "fresh" in modes:
@@ -48,6 +48,8 @@ def unit(u) -> Stats:
                 Ks = None
             elif n == 5:
                 Ks = list(A.layered_knowledge(n, 2))
+            elif "few" in modes:
+                Ks = A.few_knowledge(n)
             else:
                 Ks = list(A.layered_knowledge(n, 1)) + (list(A.distance2_knowledge(n)) if "pairs" in modes else [])
             lr.fresh(Ks=Ks)
@@ -77,16 +79,18 @@ def units(run: Run):
     for i, g in enumerate(g3):
         for tag, gv in A.with_shifts([g], 3):
             us.append((3, f"{tag}#{i}", gv, ("fresh", "euler", "dirty2"), 0.0))
+        for tag, gv in A.with_scales([g], 3):      # huge additive part with a small surplus on top; tiny units
+            us.append((3, f"{tag}#{i}", gv, ("fresh", "euler"), 0.0))
     if quick:
         reps = A.a4_sa_reps(seed)
         for i, g in enumerate(reps):
-            variants = list(A.with_shifts([g], 4))
-            tag, gv = variants[(i + seed) % 3]
+            variants = A.all_variants(g, 4)
+            tag, gv = variants[(i + seed) % 5]
             modes = ("fresh", "euler") if i % 12 == seed % 12 else ("fresh",)
             us.append((4, f"{tag}#{i}", gv, modes, 0.0))
     else:
         for i, g in enumerate(A.a4_sa_full()):
-            variants = list(A.with_shifts([g], 4))
+            variants = A.all_variants(g, 4)
             for j, (tag, gv) in enumerate(variants):
                 modes = ("fresh", "euler") if (i % 16 == seed % 16 and j == 1) else ("fresh",)
                 us.append((4, f"{tag}#{i}", gv, modes, 0.0))
@@ -113,6 +117,13 @@ def units(run: Run):
             if quick and not tag.startswith(("matching", "path-shift", "two-cliques")):
                 continue
             us.append((n, f"n{n}:{tag}", gv, ("fresh", "pairs") if n == 6 else ("fresh",), 0.0))
+    # beyond one machine byte of players: n = 9, 10 (the memoised structure and the cached computer only; the uncached one needs seconds per
+    # compute there), negative and mixed-sign exact games, a dozen knowledge sets
+    for n in ((9,) if quick else (9, 10)):
+        us.append((n, f"n{n}:budget3", A.budget_game(n, 3), ("fresh", "few", "cached-only"), 0.0))
+        us.append((n, f"n{n}:convex-shift", A.shifted(A.convex_game(n), A.SHIFT_LONG[:n]), ("fresh", "few", "cached-only"), 0.0))
+    for n in (7, 8):
+        us.append((n, f"n{n}:budget2", A.budget_game(n, 2), ("fresh", "few") if quick else ("fresh",), 0.0))
     # float-valued generator families (tolerance G2)
     width = 2 if quick else 8
     for name in gens.SA_FAMILIES:
@@ -138,13 +149,13 @@ def unit_resolved(u) -> Stats:
 
 def run(run: Run) -> None:
     us = units(run)
-    run.rule = ("hidden games enumerated completely: A3-SA x {plain, additive shift, dyadic}; A4-SA closure-rule games "
+    run.rule = ("hidden games enumerated completely: A3-SA x {plain, additive shift, dyadic, huge additive part 2^20*a, tiny units 2^-30}; A4-SA closure-rule games "
                 "(quick: one representative per relabelling class, thorough: all 2048 x 3 variants + 1/8 of pairs in {0,1,2}); "
                 "n=5 layered K on two exact games and 34 pair-graph games; n=6 (thorough 7, 8) structurally different exact games with every K within distance 1 of "
                 "minimal/full, size layers and (n=6) every pair of revealed coalitions; float generator families in a seed window. Per game and computer: "
                 "fresh object at EVERY knowledge set, Euler walk over every lattice edge on one long-lived object, "
                 "BFS over dirty runs <= 2 (n=3). non-trivial = distinct (game, computer, K) with at least one non-degenerate interval")
-    run.bounds = {"n": [3, 4, 5, 6] if run.quick else [3, 4, 5, 6, 7, 8], "dirty_run": 2, "computers": list(COMPUTERS), "units": len(us),
+    run.bounds = {"n": [3, 4, 5, 6, 7, 8, 9] if run.quick else [3, 4, 5, 6, 7, 8, 9, 10], "dirty_run": 2, "computers": list(COMPUTERS), "units": len(us),
                   "seed_window_width": 2 if run.quick else 8}
     run.assumptions = ["float generator games are compared with tolerance 64*n*2^-53*scale (G2); exact alphabets with ==",
                        "n>=5 is covered on layered knowledge sets only (Hamming distance <= 2 of minimal/full plus size layers)"]
